@@ -227,7 +227,7 @@ func ruleP15Guards(p *Prog, r *Report) {
 					noMatch = b.Succs[0]
 				}
 				if len(noMatch.Preds) == 1 && rejectComplete(noMatch, func(ret *ssa.Return) string {
-					if p.nilnessAt(ret.Block(), ret.Results[1], 0) != nnNonNil {
+					if p.nilnessAt(ret.Block(), retResult(ret, 1), 0) != nnNonNil {
 						return "nil error"
 					}
 					return ""
@@ -269,7 +269,7 @@ func ruleP15Guards(p *Prog, r *Report) {
 					diff = b.Succs[1]
 				}
 				if len(diff.Preds) == 1 && rejectComplete(diff, func(ret *ssa.Return) string {
-					if p.nilnessAt(ret.Block(), ret.Results[1], 0) != nnNonNil {
+					if p.nilnessAt(ret.Block(), retResult(ret, 1), 0) != nnNonNil {
 						return "nil error"
 					}
 					return ""
@@ -359,9 +359,16 @@ func ruleP15Steps(p *Prog, r *Report) {
 			if !ok {
 				continue
 			}
-			if bo, ok := iff.Cond.(*ssa.BinOp); ok && bo.Op == token.EQL && accessorOfDate(bo.X, "Weekday") {
+			if bo, ok := iff.Cond.(*ssa.BinOp); ok && (bo.Op == token.EQL || bo.Op == token.NEQ) && accessorOfDate(bo.X, "Weekday") {
 				if k, isK := constInt(bo.Y); isK {
-					ks = append(ks, k)
+					// the walk stops on the edge on which weekday == k
+					eq := b.Succs[0]
+					if bo.Op == token.NEQ {
+						eq = b.Succs[1]
+					}
+					if !reachableFrom(eq, nil)[b] {
+						ks = append(ks, k)
+					}
 				}
 			}
 		}
@@ -424,7 +431,7 @@ func ruleP15Bounds(p *Prog, r *Report) {
 		last := map[int64]int64{1: 31, 2: 30, 3: 30, 4: 31}
 		seen := map[int64]bool{}
 		for _, ret := range returnsOf(qf) {
-			c, ok := isCallTo(ret.Results[0], newPeriod, 0)
+			c, ok := isCallTo(retResult(ret, 0), newPeriod, 0)
 			if !ok {
 				continue
 			}
@@ -447,7 +454,7 @@ func ruleP15Bounds(p *Prog, r *Report) {
 	yf := p.method("klog/service/period", "Year", "Period")
 	if r.anchorFn(rule, yf, "Year.Period") {
 		for _, ret := range returnsOf(yf) {
-			c, ok := isCallTo(ret.Results[0], newPeriod, 0)
+			c, ok := isCallTo(retResult(ret, 0), newPeriod, 0)
 			good := false
 			if ok {
 				s, ok1 := desc(c.Common().Args[0])
@@ -460,7 +467,7 @@ func ruleP15Bounds(p *Prog, r *Report) {
 	mf := p.method("klog/service/period", "Month", "Period")
 	if r.anchorFn(rule, mf, "Month.Period") {
 		for _, ret := range returnsOf(mf) {
-			c, ok := isCallTo(ret.Results[0], newPeriod, 0)
+			c, ok := isCallTo(retResult(ret, 0), newPeriod, 0)
 			good := false
 			if ok {
 				s, ok1 := desc(c.Common().Args[0])
@@ -504,7 +511,7 @@ func ruleP15Bounds(p *Prog, r *Report) {
 			continue
 		}
 		for _, ret := range returnsOf(f) {
-			_, fld := fieldLoad(ret.Results[0])
+			_, fld := fieldLoad(retResult(ret, 0))
 			r.check(fld == pr[1], rule, "periodData."+pr[0], p.instrPos(ret), pr[0]+"() returns the "+pr[1]+" bound", pr[0]+"() does not return the "+pr[1]+" bound")
 		}
 	}
